@@ -12,6 +12,17 @@ From UV Require Import Proofs.WireP Proofs.ExtP Proofs.GreaseP.
 Section ShuffleP.
   Context {A : Type} (fixed : A -> bool).
 
+  Lemma nth_error_firstn_lt (l : list A) : forall i k, (k < i)%nat -> nth_error (firstn i l) k = nth_error l k.
+  Proof.
+    induction l as [|x l IH]; intros [|i] [|k] H; cbn; try reflexivity; try lia. apply IH. lia.
+  Qed.
+  Lemma nth_error_skipn (l : list A) : forall n k, nth_error (skipn n l) k = nth_error l (n + k).
+  Proof.
+    induction l as [|x l IH]; intros [|n] k; cbn; try reflexivity.
+    - destruct k; reflexivity.
+    - apply IH.
+  Qed.
+
   Lemma upd_length i (x : A) l : (i < length l)%nat -> length (upd i x l) = length l.
   Proof.
     intros H. unfold upd. rewrite app_length. cbn [length]. rewrite firstn_length, skipn_length. lia.
@@ -31,5 +42,80 @@ Section ShuffleP.
       replace (Nat.min i (length l)) with i by lia.
       destruct (k - i)%nat as [|m] eqn:E; [lia|]. cbn [nth_error].
       rewrite nth_error_skipn. f_equal. lia.
+  Qed.
+
+  (* one swap is a permutation *)
+  Lemma swap_perm l i j (a b : A) : nth_error l i = Some a -> nth_error l j = Some b ->
+    Permutation l (upd i b (upd j a l)).
+  Proof.
+    intros Hi Hj.
+    assert (Li : (i < length l)%nat) by (apply nth_error_Some; congruence).
+    assert (Lj : (j < length l)%nat) by (apply nth_error_Some; congruence).
+    apply Permutation_nth_error. split.
+    - rewrite upd_length; rewrite upd_length; lia.
+    - exists (fun n => if Nat.eqb n i then j else if Nat.eqb n j then i else n). split.
+      + intros x y. destruct (Nat.eqb_spec x i), (Nat.eqb_spec y i), (Nat.eqb_spec x j), (Nat.eqb_spec y j); lia.
+      + intros n. destruct (Nat.eqb_spec n i) as [->|Hni].
+        * rewrite upd_same by (rewrite upd_length; lia). symmetry; exact Hj.
+        * rewrite upd_other by (rewrite ?upd_length; lia).
+          destruct (Nat.eqb_spec n j) as [->|Hnj].
+          -- rewrite upd_same by lia. symmetry; exact Hi.
+          -- apply upd_other; lia.
+  Qed.
+
+  (* fixed entries of l stay where they are, and no fixed entry appears elsewhere *)
+  Definition fixed_kept (l l' : list A) : Prop :=
+    (forall k x, nth_error l k = Some x -> fixed x = true -> nth_error l' k = Some x) /    (forall k y, nth_error l' k = Some y -> fixed y = true -> nth_error l k = Some y).
+
+  Lemma fixed_kept_refl l : fixed_kept l l.
+  Proof. split; auto. Qed.
+  Lemma fixed_kept_trans l1 l2 l3 : fixed_kept l1 l2 -> fixed_kept l2 l3 -> fixed_kept l1 l3.
+  Proof. intros [A1 B1] [A2 B2]. split; intros k x H F; [apply A2; auto | apply B1; auto]. Qed.
+
+  Lemma shuf_step_ok l ij l' : shuf_step fixed l ij = Ok l' -> Permutation l l' /\ fixed_kept l l'.
+  Proof.
+    destruct ij as [i j]. unfold shuf_step.
+    destruct (nth_error l i) as [a|] eqn:Hi; [|discriminate].
+    destruct (fixed a) eqn:Fa; [intros H; inversion H; subst; split; [reflexivity|apply fixed_kept_refl]|].
+    destruct (nth_error l j) as [b|] eqn:Hj; [|discriminate].
+    destruct (fixed b) eqn:Fb; [intros H; inversion H; subst; split; [reflexivity|apply fixed_kept_refl]|].
+    intros H; inversion H; subst l'; clear H.
+    assert (Li : (i < length l)%nat) by (apply nth_error_Some; congruence).
+    assert (Lj : (j < length l)%nat) by (apply nth_error_Some; congruence).
+    split; [apply swap_perm; assumption|]. split.
+    - intros k x Hk Fx.
+      assert (k <> i) by (intros ->; congruence). assert (k <> j) by (intros ->; congruence).
+      rewrite upd_other by (rewrite ?upd_length; lia). rewrite upd_other by lia. exact Hk.
+    - intros k y Hk Fy.
+      destruct (Nat.eq_dec k i) as [->|Hki].
+      { rewrite upd_same in Hk by (rewrite upd_length; lia). congruence. }
+      rewrite upd_other in Hk by (rewrite ?upd_length; lia).
+      destruct (Nat.eq_dec k j) as [->|Hkj].
+      { rewrite upd_same in Hk by lia. congruence. }
+      rewrite upd_other in Hk by lia. exact Hk.
+  Qed.
+
+  Lemma shuffle_ok swaps : forall l l', shuffle fixed swaps l = Ok l' -> Permutation l l' /\ fixed_kept l l'.
+  Proof.
+    induction swaps as [|s r IH]; intros l l' H; cbn [shuffle] in H.
+    - inversion H; subst. split; [reflexivity|apply fixed_kept_refl].
+    - destruct (shuf_step fixed l s) as [l1| |] eqn:E; cbn [bind] in H; try discriminate.
+      destruct (shuf_step_ok _ _ _ E) as [P1 K1]. destruct (IH _ _ H) as [P2 K2].
+      split; [eapply Permutation_trans; eassumption | eapply fixed_kept_trans; eassumption].
+  Qed.
+
+  (* the function fails only by indexing outside the slice, which rand.Shuffle(len(exts), ..) never does *)
+  Lemma shuffle_total swaps : forall l, Forall (fun ij => (fst ij < length l)%nat /\ (snd ij < length l)%nat) swaps ->
+    exists l', shuffle fixed swaps l = Ok l'.
+  Proof.
+    induction swaps as [|[i j] r IH]; intros l H; cbn [shuffle]; [eexists; reflexivity|].
+    inversion H as [|? ? [Hi Hj] Hr]; subst. cbn [fst snd] in *.
+    assert (exists l1, shuf_step fixed l (i, j) = Ok l1 /\ length l1 = length l) as (l1 & E & L).
+    { unfold shuf_step. destruct (nth_error l i) as [a|] eqn:Ei; [|apply nth_error_None in Ei; lia].
+      destruct (fixed a); [eexists; split; reflexivity|].
+      destruct (nth_error l j) as [b|] eqn:Ej; [|apply nth_error_None in Ej; lia].
+      destruct (fixed b); [eexists; split; reflexivity|].
+      eexists; split; [reflexivity|]. rewrite upd_length; rewrite upd_length; lia. }
+    rewrite E. cbn [bind]. apply IH. rewrite L. exact Hr.
   Qed.
 End ShuffleP.
